@@ -198,6 +198,27 @@ Theorem c07_feat_group_star_concat :
 Proof. vm_compute. reflexivity. Qed.
 Print Assumptions c07_feat_group_star_concat.
 
+(* string literals (fix d2c1667: string_literal_backslash_escape).  The flag is set only where the engine reads backslash
+   escapes (doubling elsewhere would change the value) ... *)
+Theorem c07_feat_backslash_sound :
+  all_ops_ok (fun df => implies (backslash_escape (snd df)) (reads_backslash_escape (fst df))) = true.
+Proof. vm_compute. reflexivity. Qed.
+Print Assumptions c07_feat_backslash_sound.
+
+(* ... full statement of the converse, still FALSE (open finding N13: bigquery reads backslash escapes, the flag is off, `'a\'`
+   swallows its closing quote):
+     all_ops_ok (fun df => implies (reads_backslash_escape (fst df)) (backslash_escape (snd df))) = true *)
+Definition backslash_ok (df : list N * feat) : bool := implies (reads_backslash_escape (fst df)) (backslash_escape (snd df)).
+Theorem c07_witness_bigquery_backslash : existsb (fun df => negb (backslash_ok df)) feats = true.
+Proof. vm_compute. reflexivity. Qed.
+Print Assumptions c07_witness_bigquery_backslash.
+Theorem c07_feat_backslash_refuted : exists df, In df feats /\ backslash_ok df = false.
+Proof. destruct (proj1 (existsb_exists _ _) c07_witness_bigquery_backslash) as (df & Hin & H). exists df. split; [exact Hin|]. now destruct (backslash_ok df). Qed.
+Print Assumptions c07_feat_backslash_refuted.
+Theorem c07_feat_backslash_partial : all_ops_ok (fun df => is_ (fst df) [d_bigquery] || backslash_ok df) = true.
+Proof. vm_compute. reflexivity. Qed.
+Print Assumptions c07_feat_backslash_partial.
+
 (* LIMIT / OFFSET / FETCH as translate_select_pipeline emits them, for every take range.
    F27 is repaired (limit_for_bare_offset): an engine without OFFSET-without-LIMIT has the flag *)
 Definition has_bare (f : feat) : bool := match bare_offset_limit f with Some _ => true | None => false end.
